@@ -256,6 +256,7 @@ pub fn run(ctx: &mut Ctx) {
     rt.shutdown_timeout(Duration::from_millis(300));
     reverse_proxy_sessions(ctx);
     idle_tunnels_seen_from_the_client(ctx);
+    abandoned_connects_are_released(ctx);
 }
 
 /// the session timer of a reverse-proxy connection: an HTTP/3 session on the reverse-proxy host whose streams have all
@@ -326,6 +327,110 @@ fn reverse_proxy_sessions(ctx: &mut Ctx) {
     }
 }
 
+
+/// sockets of this process in SYN_SENT towards `dst` (`/proc/net/tcp`; `None`: not readable)
+fn syn_sent_towards(dst: SocketAddr) -> Option<usize> {
+    let text = std::fs::read_to_string("/proc/net/tcp").ok()?;
+    let SocketAddr::V4(d) = dst else { return None };
+    let want = format!("{:08X}:{:04X}", u32::from_le_bytes(d.ip().octets()), d.port());
+    Some(text.lines().skip(1).filter(|l| {
+        let f: Vec<&str> = l.split_whitespace().collect();
+        f.len() > 3 && f[2] == want && f[3] == "02"
+    }).count())
+}
+
+/// An outbound connection attempt that is still pending when the establishment timeout expires (the real direct forwarder
+/// towards a loopback listener whose accept queue is full: the SYN is never answered): the client gets its error after E,
+/// and the attempt is given up - no socket of the endpoint is left trying (wall clock; real codecs over in-memory transports).
+fn abandoned_connects_are_released(ctx: &mut Ctx) {
+    use trusttunnel::verif::vlive;
+    const E_MS: u64 = 400;
+    let tw = crate::c16::make_tcp_world();
+    let Some(hanging) = tw.hanging else {
+        ctx.notes.push("no hanging destination could be made (accept queue never filled): abandoned-connect scenario skipped".into());
+        return;
+    };
+    let settings = Settings::builder()
+        .listen_address(("127.0.0.1", 1))
+        .unwrap()
+        .listen_protocols(ListenProtocolSettings { http1: Some(Http1Settings::builder().build()), http2: Some(Http2Settings::builder().build()), quic: None })
+        .allow_private_network_connections(true)
+        .connection_establishment_timeout(Duration::from_millis(E_MS))
+        .client_listener_timeout(Duration::from_secs(60))
+        .build()
+        .unwrap();
+    let hosts = TlsHostsSettings::builder()
+        .main_hosts(vec![TlsHostInfo { hostname: "localhost".into(), cert_chain_path: FIXTURE_PEM.into(), private_key_path: FIXTURE_PEM.into(), allowed_sni: vec![] }])
+        .build()
+        .unwrap();
+    let core = Arc::new(Core::new(settings, None, hosts, Shutdown::new()).unwrap());
+    let rt = tokio::runtime::Builder::new_multi_thread().worker_threads(2).enable_all().build().unwrap();
+    for proto in ["h1", "h2"] {
+        let core = core.clone();
+        let desc = format!("{} CONNECT to a destination that never answers the SYN, establishment timeout {} ms", proto, E_MS);
+        ctx.stat("abandoned_connects");
+        let Some(before) = syn_sent_towards(hanging) else {
+            ctx.notes.push("/proc/net/tcp not readable: abandoned-connect scenario skipped".into());
+            return;
+        };
+        let r: Result<(u16, Duration), String> = rt.block_on(async move {
+            let target = hanging.to_string();
+            let t0 = Instant::now();
+            if proto == "h1" {
+                let mut s = vlive::open_h1(&core, "localhost");
+                s.send(format!("CONNECT {} HTTP/1.1\r\nHost: {}\r\n\r\n", target, target).as_bytes());
+                while !s.received.windows(4).any(|w| w == b"\r\n\r\n") {
+                    tokio::time::sleep(Duration::from_millis(5)).await;
+                    s.poll();
+                    if s.received.windows(4).any(|w| w == b"\r\n\r\n") {
+                        break;
+                    }
+                    if s.eof || t0.elapsed() > Duration::from_secs(5) {
+                        return Err(format!("no response to the CONNECT ({} after {:?})", if s.eof { "connection closed" } else { "still waiting" }, t0.elapsed()));
+                    }
+                }
+                let status = String::from_utf8_lossy(&s.received).split(' ').nth(1).and_then(|x| x.parse().ok()).unwrap_or(0);
+                Ok((status, t0.elapsed()))
+            } else {
+                let Some(mut sess) = vlive::open_h2(&core, "localhost").await else { return Err("could not open the HTTP/2 session".into()) };
+                let Some(mut x) = sess.request("CONNECT", &target, &[], false).await else { return Err("CONNECT refused by the client library".into()) };
+                while x.status.is_none() {
+                    tokio::time::sleep(Duration::from_millis(5)).await;
+                    x.poll();
+                    if x.status.is_some() {
+                        break;
+                    }
+                    if x.failed || t0.elapsed() > Duration::from_secs(5) {
+                        return Err(format!("no response to the CONNECT ({} after {:?})", if x.failed { "stream failed" } else { "still waiting" }, t0.elapsed()));
+                    }
+                }
+                Ok((x.status.unwrap_or(0), t0.elapsed()))
+            }
+        });
+        match r {
+            Err(e) => ctx.oracle_failure("abandoned_connect", &format!("{}: {}", desc, e)),
+            Ok((status, took)) => {
+                if status == 200 {
+                    // the queue let it in after all: nothing to observe
+                    ctx.stat("abandoned_connects_accepted_after_all");
+                    continue;
+                }
+                if took < Duration::from_millis(E_MS - 50) {
+                    ctx.oracle_failure("abandoned_connect", &format!("{}: answered {} after {:?}, before the timeout", desc, status, took));
+                }
+                // the kernel retries an unanswered SYN for minutes: a socket still in SYN_SENT is an attempt still going
+                std::thread::sleep(Duration::from_millis(300));
+                let after = syn_sent_towards(hanging).unwrap_or(before);
+                if after > before {
+                    ctx.oracle_failure(
+                        "attempt_not_abandoned",
+                        &format!("{}: answered {} after {:?}, but {} socket(s) of the endpoint are still trying to connect (SYN_SENT) 300 ms later", desc, status, took, after - before),
+                    );
+                }
+            }
+        }
+    }
+}
 
 /// An established CONNECT tunnel whose two ends fall silent (real codecs over in-memory transports, the real direct forwarder
 /// to a loopback origin that holds the connection open and says nothing, wall clock): T after the last byte - and no later than
